@@ -196,7 +196,7 @@ def vector_decomposition_sq(
     ndim = qvector.shape[1]
     vector_fft = conditional_sq(snapshot, qvector, vector)[0]
     unitq = vector_fft[[f"q{i}" for i in range(ndim)]].values
-    unitq /= (vector_fft["q"].values)[:, np.newaxis]
+    unitq = unitq / (vector_fft["q"].values)[:, np.newaxis]
     fft_columns = vector_fft[[f"FFT{i}" for i in range(ndim)]].values
     vector_L = np.zeros_like(fft_columns)
     for n in range(qvector.shape[0]):
